@@ -327,7 +327,9 @@ PROPS["C02"] = {
             "Non-trivial = the trace has >= 2 context switches and >= 2 threads executed a CAS on procStatus (engine level: additionally a pill or a restart).  Distinct = configuration + consumed schedule.  "
             "History leg (real goroutines, unmodified package actor): generated single-actor histories (sends, panicking sends, gates that block the receiver inside Receive, releases, bursts, Stop, Poison, "
             "respawn, planned panics in Initialized/Started, sends racing the start-up) with an entry/exit counter around every invocation of the actor's Receive over all incarnations: while a gate holds "
-            "the receiver inside Receive any further delivery, by whichever goroutine, is an overlap; non-trivial there = a crash and a gate in one history, or sends racing the start-up.",
+            "the receiver inside Receive any further delivery, by whichever goroutine, is an overlap; non-trivial there = a crash and a gate in one history, or sends racing the start-up.  "
+            "Thorough tier: the same histories in a -race build in which every Receive writes a plain, unsynchronised field of the receiver: a report of the race detector that involves package actor, "
+            "the ring buffer or that field means two invocations are not ordered by happens-before (the journaled case is the replay file).",
     "technique": "schedule-owning property testing: generated interleavings (rapid) and preemption-bounded exhaustive enumeration of a real Inbox / Engine under a cooperative scheduler injected at build time; plus generated gate-controlled histories on the real engine with an overlap counter",
     "level_text": "Generated-schedule search plus complete enumeration of all schedules with a bounded number of preemptions for small configurations; the oracle is an overlap counter.",
     "level_note": "sequentially consistent interleavings of the rewritten code only; trusts the rewriter (imports and go statements) and vsched; the history leg owns the history (gates), not the schedule",
@@ -335,7 +337,8 @@ PROPS["C02"] = {
     "legs": [rapid("rand", "sched", "TestSerialRandom", 20000, 300000, shards=(2, 12), flavour="sched"),
              plain("dfs", "sched", "TestSerialDFS", flavour="sched"),
              rapid("engine", "sched", "TestSerialEngine", 4000, 60000, shards=(2, 12), flavour="sched"),
-             rapid("hist", "c02", "TestSerialHistories", 3000, 40000, shards=(2, 12))],
+             rapid("hist", "c02", "TestSerialHistories", 3000, 40000, shards=(2, 12)),
+             rapid("race", "c02", "TestSerialHistories", 1500, 3000, shards=(2, 8), race=True, tiers=("thorough",))],
 }
 
 PROPS["C03"] = {
